@@ -5,4 +5,5 @@ cd /verif/harness
 export CARGO_NET_OFFLINE=true
 cargo build --release --offline -p vcheck
 cargo build --release --offline -p fs_nowat
+cargo build --release --offline -p c20reg
 ( cd /repo && CARGO_TARGET_DIR=/verif/harness/target/wac-cli cargo build --release --offline --bin wac )
